@@ -282,6 +282,62 @@ def module_case(task):
     return out
 
 
+def schw_expansion_case(task):
+    try:
+        return _schw_expansion_case(task)
+    except Exception:      # noqa: BLE001
+        import traceback
+        return {'bad': [('null_ray_exp_out:raised',
+                         traceback.format_exc()[-300:])], 'checks': 1}
+
+
+def _schw_expansion_case(task):
+    """Schwarzschild_isotropic.null_ray_exp_out against the expansion of the
+    r = const surfaces implied by the module's own metric and extrinsic
+    curvature, outside AND inside the horizon (0 < r < M/2, where it is
+    negative)."""
+    region, = task
+    m = mod('Schwarzschild_isotropic')
+    bad = []
+    if region == 'outside':
+        X, Y, Z = lattice(3.5)
+    else:
+        X, Y, Z = [0.08 * c for c in lattice(0.0)]
+    r = np.sqrt(X * X + Y * Y + Z * Z)
+    t = 1.3
+
+    def flux(t_, x, y, z):
+        a, b, g3 = metric_parts('Schwarzschild_isotropic', t_, x, y, z)
+        gi = np.moveaxis(np.linalg.inv(np.moveaxis(np.moveaxis(
+            g3, 0, -1), 0, -1)), (-2, -1), (0, 1))
+        rr = np.sqrt(x * x + y * y + z * z)
+        dr = np.array([x, y, z]) / rr
+        su = np.einsum('ij...,j...->i...', gi, dr)
+        su = su / np.sqrt(np.einsum('i...,i...->...', su, dr))
+        sq = np.sqrt(np.linalg.det(np.moveaxis(np.moveaxis(g3, 0, -1), 0,
+                                               -1)))
+        return su * sq, su, sq
+    args = [t, X, Y, Z]
+    h = 1e-3 * float(r.min())
+    F, su, sq = flux(*args)
+    div = sum(d1(lambda *xs, _k=k: flux(*xs)[0][_k - 1], args, k, h)
+              for k in (1, 2, 3)) / sq
+    with quiet():
+        K = np.asarray(m.Kdown3(t, X, Y, Z), dtype=float)
+        g3 = np.asarray(m.gammadown3(t, X, Y, Z), dtype=float)
+        th = np.asarray(m.null_ray_exp_out(t, X, Y, Z), dtype=float)
+    gi = np.moveaxis(np.linalg.inv(np.moveaxis(np.moveaxis(g3, 0, -1), 0,
+                                               -1)), (-2, -1), (0, 1))
+    theta = div + np.einsum('ij...,i...,j...->...', K, su, su) \
+        - np.einsum('ij...,ij...->...', gi, K)
+    e = float(np.abs(th - theta).max() / np.abs(theta).max())
+    if not e < 1e-6:
+        bad.append((f'null_ray_exp_out:{region}', e,
+                    f'r in [{r.min():.3f}, {r.max():.3f}]',
+                    f'sign of reference: {np.sign(theta).min():.0f}'))
+    return {'bad': bad, 'checks': 1}
+
+
 def dtype_case(task):
     """Every function of (t, x, y, z) of the module gives the same values on
     integer-typed coordinate arrays (what FiniteDifference builds from
@@ -415,6 +471,13 @@ def main(tier):
             run.violation(f"C17:{t[0]}:{b[0]}",
                           f"{t[0]} time index {t[1]}: {b}"[:500],
                           {'module': t[0], 'time_index': t[1], 'dtype': 1})
+    for t, r in zip(('outside', 'inside'), runner.pmap(
+            schw_expansion_case, [('outside',), ('inside',)], workers=2)):
+        run.count('checks', r['checks'])
+        run.seen(('schw-expansion', t))
+        for b in r['bad']:
+            run.violation(f"C17:Schwarzschild_isotropic:{b[0]}", str(b),
+                          {'schw_expansion': t})
     ic = runner.pmap(icpert_case, [
         (1.0, 'EdS', 0.05), (0.5, 'EdS', 0.05), (1.0, 'LCDM', 0.05),
         (1.0, 'LCDM', 0.3), (1.0, 'LCDM', 0.6), (1.0, 'EdS', 0.6)],
@@ -453,6 +516,10 @@ def main(tier):
 
 def replay(rec):
     c = rec['case']
+    if 'schw_expansion' in c:
+        r = schw_expansion_case((c['schw_expansion'],))
+        print(r)
+        return 1 if r['bad'] else 0
     if 'module' in c:
         fn = dtype_case if c.get('dtype') else module_case
         r = fn((c['module'], c['time_index']))
